@@ -769,6 +769,8 @@ pub fn driver_main(check: Arc<dyn Check>, cfg: RunConfig) -> i32 {
     let jobs = cfg.jobs.min(check.max_workers()).max(1);
     let stop = Arc::new(AtomicBool::new(false));
     let mut handles = Vec::new();
+    // hangs/crashes that cannot be violations only make the run inconclusive: do not collect many
+    let incident_cap: usize = if check.hang_is_violation() || check.crash_is_violation() { 12 } else { 3 };
     for _w in 0..jobs {
         let queue = queue.clone();
         let agg = agg.clone();
@@ -842,7 +844,7 @@ pub fn driver_main(check: Arc<dyn Check>, cfg: RunConfig) -> i32 {
                                 // cases before `bad` in this batch were executed but their statistics are lost; count them
                                 a.n += bad - start;
                                 a.incidents.push(Incident { kind: kind.to_string(), phase: pi, idx: bad, info });
-                                if a.incidents.len() > 12 {
+                                if a.incidents.len() > incident_cap {
                                     stop.store(true, Ordering::Relaxed);
                                 }
                             }
@@ -877,16 +879,26 @@ pub fn driver_main(check: Arc<dyn Check>, cfg: RunConfig) -> i32 {
         let mut seen: HashSet<String> = HashSet::new();
         let incidents = agg.incidents.clone();
         let mut done = 0;
+        let mut cheap_reruns = 0;
         for inc in incidents.iter() {
             if done >= 6 {
                 break;
             }
             let tape = tape_for(check.as_ref(), cfg.seed, &phases, inc.phase, inc.idx);
-            let to = Duration::from_millis(phases[inc.phase].watchdog_ms * 3);
+            // where a hang/crash cannot be a violation the re-run only looks for a regular verdict: once, briefly
+            let can_violate = (inc.kind == "hang" && check.hang_is_violation()) || (inc.kind == "crash" && check.crash_is_violation());
+            if !can_violate {
+                cheap_reruns += 1;
+                if cheap_reruns > 2 {
+                    inconclusive.push(format!("{} at phase {} idx {} ({}) not re-run; not a property violation by itself", inc.kind, inc.phase, inc.idx, inc.info));
+                    continue;
+                }
+            }
+            let to = Duration::from_millis(phases[inc.phase].watchdog_ms * if can_violate { 3 } else { 1 });
             let mut one = OneShot::new(id, cfg.tier, cfg.seed);
             let mut same = 0;
             let mut other_result: Option<Value> = None;
-            for _ in 0..3 {
+            for _ in 0..(if can_violate { 3 } else { 1 }) {
                 match one.eval(inc.phase, &tape, to) {
                     OneResult::Hang if inc.kind == "hang" => same += 1,
                     OneResult::Crash(_) if inc.kind == "crash" => same += 1,
